@@ -420,10 +420,25 @@ func (t *TriDense) Copy(a Matrix) (r, c int) {
 		tIsUpper := t.isUpper()
 		switch {
 		case tIsUpper && aIsUpper:
+			if len(t.mat.Data) != 0 && len(amat.Data) != 0 && offset(t.mat.Data, amat.Data) < 0 {
+				// The receiver may be a view that starts after a in the same
+				// backing data: copy the rows in reverse order so that no row
+				// of a is overwritten before it has been copied.
+				for i := r - 1; i >= 0; i-- {
+					copy(t.mat.Data[i*t.mat.Stride+i:i*t.mat.Stride+c], amat.Data[i*amat.Stride+i:i*amat.Stride+c])
+				}
+				break
+			}
 			for i := 0; i < r; i++ {
 				copy(t.mat.Data[i*t.mat.Stride+i:i*t.mat.Stride+c], amat.Data[i*amat.Stride+i:i*amat.Stride+c])
 			}
 		case !tIsUpper && !aIsUpper:
+			if len(t.mat.Data) != 0 && len(amat.Data) != 0 && offset(t.mat.Data, amat.Data) < 0 {
+				for i := r - 1; i >= 0; i-- {
+					copy(t.mat.Data[i*t.mat.Stride:i*t.mat.Stride+i+1], amat.Data[i*amat.Stride:i*amat.Stride+i+1])
+				}
+				break
+			}
 			for i := 0; i < r; i++ {
 				copy(t.mat.Data[i*t.mat.Stride:i*t.mat.Stride+i+1], amat.Data[i*amat.Stride:i*amat.Stride+i+1])
 			}
